@@ -197,4 +197,19 @@ func init() {
 		Technique: "interval analysis of integer conversions; relational index-below-length facts carried through '+const' on SSA paths of scan loops; emptiness guards on chunk heads; trim-guard and stutter-freedom",
 		DesignRef: "DESIGN.md section 2 R4, R5, R3, R2; section 3 C04",
 	})
+	register(&PropSpec{
+		ID:    "C09",
+		Level: "other",
+		Decided: "for the adapters that expand extended events and for the whole fold side of gotype: every producer function emits, on every path that can return a nil error, a word of the Visitor grammar for its effect type (balanced and nested, exactly one key before each value inside an object); a start event announcing a non-negative length announces len(x) and is followed by exactly one element per entry of x; adapters announce the element type they emit; folders are combined according to their effect types (R10). For the parsers only in part: lifecycle of container handlers (R7).",
+		NotDecided: "for the parsers: that the number of elements delivered equals the announced count and start/finish balance on accepted input (emission is spread over resumable steps); user folders (Folder.Fold, registered functions) are assumed to emit exactly one value.",
+		Assumptions: []string{"the effect-type table of fold function getters in r10_grammar.go (frozen from reading; keyed by function, a rename breaks it loudly)"},
+		TrustedBase: baseTrusted,
+		Rules: []RuleRun{
+			{"R10", R10},
+			{"R7", R7},
+		},
+		LevelText: "Structural necessary condition that is close to the whole property for the adapters and the fold side: regular-language inclusion of every function's emitted event words in the grammar of its effect type, decided by a product of the SSA control-flow graph with the grammar automaton. Announced lengths and types are ignored by the JSON encoder and by the test comparison, so no test can see a wrong announcement.",
+		Technique: "product of SSA paths with a Visitor-grammar automaton (terminals = visitor events, non-terminals = fold function values typed by a getter table), loop-iteration element counting for announced lengths, type-derived announce table for adapters",
+		DesignRef: "DESIGN.md section 2 R10; section 3 C09",
+	})
 }
